@@ -1,6 +1,6 @@
 (* C04 — Leftmost-first search picks the leftmost start, then the earliest-registered pattern. *)
 From DV Require Import Model.Base Model.Nfa Model.BwBuild Model.BwSearch Model.Utf8 Model.CwBuild Model.Api Model.Spec
-     Model.Cert Proofs.Leftmost Proofs.BwLeftmost Theory.LmfSpec Proofs.Utf8Props Proofs.CwCert Proofs.CwLeftmost Proofs.TrieInv Proofs.BuildTrie.
+     Model.Cert Proofs.Leftmost Proofs.BwLeftmost Theory.LmfSpec Proofs.Utf8Props Proofs.CwCert Proofs.CwLeftmost Proofs.TrieInv Proofs.BuildTrie Proofs.BuiltAutomata.
 Local Open Scope N_scope.
 
 (* (1) On specifications, for every duplicate-free sequence of non-empty patterns (order is
@@ -91,3 +91,24 @@ Theorem lmf_builder_registers_exactly_the_effective_patterns :
     /\ (forall p v, In (p, v) (effective V pvs) -> exists t, twalk V n ROOT p = Some t).
 Proof. exact lmf_loop_lemma. Qed.
 Print Assumptions lmf_builder_registers_exactly_the_effective_patterns.
+
+(* (7) C04 with no certificate hypothesis, both variants (builder theorem for the leftmost kinds, see
+   C03): on every automaton built with leftmost-first semantics, from any valid pattern sequence,
+   the leftmost search returns spec_lmf of the REGISTERED sequence on every haystack. *)
+Theorem bw_lmf_correct_for_every_built_automaton :
+  forall (V : Type) (veqb : V -> V -> bool), (forall a b, veqb a b = true <-> a = b) ->
+  forall nfb (pvs : list (list N * V)) (A : bw_automaton V),
+    (forall p v, In (p, v) pvs -> Forall (fun b => b < 256) p) -> 4 * total_len V pvs <= U32_MAX - 1 ->
+    bw_build_with_values V LeftmostFirst nfb pvs = Ok A ->
+  forall h, Forall (fun b => b < 256) h -> bw_leftmost_find_iter V A h = Ok (spec_lmf V pvs h).
+Proof. exact bw_built_lmf. Qed.
+Print Assumptions bw_lmf_correct_for_every_built_automaton.
+
+Theorem cw_lmf_correct_for_every_built_automaton :
+  forall (V : Type) (veqb : V -> V -> bool), (forall a b, veqb a b = true <-> a = b) ->
+  forall nfb (pvs : list (list N * V)) (A : cw_automaton V),
+    4 * total_len V pvs <= U32_MAX - 1 ->
+    cw_build_with_values V LeftmostFirst nfb pvs = Ok A ->
+  forall cs, Forall scalar cs -> cw_leftmost_find_iter V A (encode_utf8 cs) = Ok (map (to_bytes V cs) (spec_lmf V pvs cs)).
+Proof. exact cw_built_lmf. Qed.
+Print Assumptions cw_lmf_correct_for_every_built_automaton.
